@@ -586,7 +586,7 @@ fn concurrent_programs() -> Vec<(crate::sched::Program, crate::props::e1::Mode, 
                         threads: e1::own_handles(vec![vec![api(w)], vec![POp::Unlink(format!("x{}", victim))]], true),
                         create_write_dir: true,
                     },
-                    Mode::Bounded(2),
+                    crate::props::e1::side_bound(),
                     k,
                 ));
             }
